@@ -1,7 +1,6 @@
 package rules
 
 import (
-	"os"
 	"fmt"
 	"go/ast"
 	"go/token"
@@ -2083,9 +2082,6 @@ func ruleHD9() Rule {
 							rets++
 							if !st[r] {
 								ok = false
-								if os.Getenv("SA_DEBUG_HD9") != "" {
-									fmt.Fprintf(os.Stderr, "HD9: %s not clean at %s\n", h.Name, c.P.PosString(r.Pos()))
-								}
 							}
 						}
 						return true
@@ -2139,9 +2135,6 @@ func ruleHD9() Rule {
 						if call, ok := n.(*ast.CallExpr); ok {
 							if fo := core.StaticCallee(info, call); fo != nil {
 								if h := c.P.FuncOf(fo); h != nil && h != target && writer[h] && !flusher(h) && !cleanAtExit(h) {
-									if os.Getenv("SA_DEBUG_HD9") != "" {
-										fmt.Fprintf(os.Stderr, "HD9: in %s the call of %s dirties\n", f.Name, h.Name)
-									}
 									return true
 								}
 							}
